@@ -330,7 +330,8 @@ def extract(tree):
     flags["mode2NeverParks"] = bool(im2 and iwp >= 0 and im2.end() <= iwp)
     # ---- message payload codec (Thread/Payload.lean): pack = janet_marshal UNSAFE, unpack = janet_unmarshal UNSAFE, same passthrough set
     pk, up = func_body(ev, "janet_chan_pack"), func_body(ev, "janet_chan_unpack")
-    flags["packUsesMarshalUnsafe"] = bool(re.search(r"default\s*:\s*\{.*?janet_marshal\s*\(\s*buf\s*,\s*\*x\s*,\s*NULL\s*,\s*JANET_MARSHAL_UNSAFE\s*\)\s*;\s*\*x\s*=\s*janet_wrap_buffer\s*\(\s*buf\s*\)", pk, re.S))
+    flags["packUsesMarshalUnsafe"] = bool(re.search(r"default\s*:\s*\{.*?janet_marshal\s*\(\s*buf\s*,\s*\*x\s*,\s*NULL\s*,\s*JANET_MARSHAL_UNSAFE\s*\)\s*;.*?\*x\s*=\s*janet_wrap_buffer\s*\(\s*buf\s*\)", pk, re.S)
+                                          and len(re.findall(r"\bjanet_marshal\s*\(", pk)) == 1)
     flags["unpackUsesUnmarshalUnsafe"] = bool(
         re.search(r"case\s+JANET_BUFFER\s*:\s*\{[^}]*int\s+flags\s*=\s*is_cleanup\s*\?\s*\(\s*JANET_MARSHAL_UNSAFE\s*\|\s*JANET_MARSHAL_DECREF\s*\)\s*:\s*JANET_MARSHAL_UNSAFE\s*;\s*"
                   r"\*x\s*=\s*janet_unmarshal\s*\(\s*buf->data\s*,\s*buf->count\s*,\s*flags\s*,\s*NULL\s*,\s*NULL\s*\)", up, re.S)
